@@ -126,7 +126,9 @@ func (v *FnVC) runDefers(i *ssa.RunDefers) {
 		saveReach := v.reach[v.curBlock]
 		v.reach[v.curBlock] = v.define("deferreach", "Bool", fmt.Sprintf("(and %s %s)", saveReach, g))
 		v.encodeCall(d, d.Common(), nil)
-		v.reach[v.curBlock] = saveReach
+		// what the deferred call's contract guarantees holds on the paths where the defer statement was reached
+		narrowed := v.reach[v.curBlock]
+		v.reach[v.curBlock] = v.define("afterdefer", "Bool", fmt.Sprintf("(and %s (=> %s %s))", saveReach, g, narrowed))
 		v.cur = v.mergeStates([]mergePart{{cond: g, st: after}, {cond: "true", st: before}})
 	}
 }
